@@ -36,6 +36,20 @@ def word_counts(fmt, out, words):
     return {w: len(re.findall(r"(?<![A-Za-z0-9])" + re.escape(w) + r"(?![A-Za-z0-9])", t)) for w in words}
 
 
+def exposed_count(table, seq):
+    """diagnostic only (coverage figure): how many word-bearing lines of the document LineSpell.Exposed keeps in sight"""
+    T = [table[i - 1] for i in seq]; n = 0
+    if T and T[0]["t"] == "---": return 0
+    for i, e in enumerate(T):
+        if not e["w"] or e["hide"]: continue
+        gs = max([j + 1 for j in range(i) if T[j]["t"] == ""] or [0])
+        if any(T[j]["hide"] for j in range(gs, i)): continue
+        if any(T[j]["t"] == "<!--" for j in range(i)): continue
+        if e["t"] in ("\ttabbed", "    spaced") and any(T[j]["first"].startswith("LINE_DEF_") for j in range(i)): continue
+        n += 1
+    return n
+
+
 def gen_docs(tier, seed):
     r = tlc.run("LineKinds", GEN % (2, "FALSE"), workers=8)
     istable = lambda v: isinstance(v, list) and v and isinstance(v[0], dict)
@@ -205,6 +219,7 @@ def run(tier, seed):
     hideset = {i + 1 for i, e in enumerate(table) if e["hide"]}
     chk.cov["visible_text"] = dict(words=WORDS, conversions_of_generated_documents=len([e for e in ctrace if e.get("seq")]),
                                    judged_in_every_writer=len([e for e in ctrace if e.get("seq") and not (set(e["seq"][2:] if [table[i - 1]["t"] for i in e["seq"][:2]] == ["Key: value", ""] else e["seq"]) & hideset)]),
+                                   lines_required_by_exposure_rule=sum(exposed_count(table, e["seq"]) for e in ctrace if e.get("seq") and not e["carries"]),          # (diagnostic mirror of LineSpell.Exposed: the verdict is TLC's)
                                    judged_in_outline_formats=len([e for e in ctrace if e.get("seq") and e["carries"]]),
                                    rule="LineSpell.Complete: a document without hiding lines (HTML blocks/comments, definitions, metadata/YAML at the top) shows every word-bearing line at least as often as written, in all 7 writers; OPML/ITMZ for every document")
     chk.cov["evaluations"] = nconv + acc
